@@ -7,19 +7,23 @@ from ..rules.flow import find_path_avoiding, reaches_exit_avoiding, describe_pat
 
 EXPLANATION = (
     "Static decision of structural clauses of C18: (1) every fwrite/fflush/fclose/fseek/fread/ftell "
-    "result in src/writer/file_writer.c and src/reader/file_reader.c is consumed on every path "
-    "(tested, returned, or stored and read before it dies); in carquet_writer_close every path that "
-    "keeps the status OK after the trailing magic passes a checked fflush or fclose before the "
-    "function returns, and a failing fflush/fclose is folded into the returned status; (2) each of "
-    "the three open paths (read_footer, read_footer_mmap, carquet_reader_open_buffer) is executed "
-    "abstractly over file sizes 0..16/20/100 x head/tail magic outcomes x footer lengths (byte compares and "
-    "the length read are hooked, contents unknown): the footer parser is reached only when the file has >= "
-    "12 bytes, the trailing magic matched and footer_size <= file_size - 8, then with exactly the "
-    "footer_size bytes before the tail; magic and length are read inside the file; every well-formed "
-    "envelope reaches the parser; build_schema runs only after the parse status was tested; (3) carquet_writer_abort closes the "
-    "stream and then removes the path for path-based writers, and whether it removes depends only on "
-    "{owns_file, file, path} (abort at any point leaves no file). Decides these clauses, not that every "
-    "prefix of every file is rejected (that depends on byte values).")
+    "result in src/writer/file_writer.c and src/reader/file_reader.c is consumed on every path; every "
+    "fwrite result is compared with the requested count (directly or through the local it is stored in) - "
+    "a test against zero alone lets a short count pass as progress; carquet_writer_close, executed "
+    "abstractly with a failure injected at each step in turn (the writer's own steps, the metadata "
+    "serialiser and stdio hooked; owns_file on/off): the emission order is header, pending row group, "
+    "metadata, metadata bytes, 4-byte length, magic, flush, close; a failing step ends the emission while "
+    "the stream is still closed; a failing fflush/fclose after the magic makes the status non-OK; close "
+    "returns OK exactly when no step failed; (2) each of the three open paths (read_footer, "
+    "read_footer_mmap, carquet_reader_open_buffer) is executed abstractly over file sizes 0..16/20/100 x "
+    "head/tail magic outcomes x footer lengths (byte compares and the length read are hooked, contents "
+    "unknown): the footer parser is reached only when the file has >= 12 bytes, the trailing magic "
+    "matched and footer_size <= file_size - 8, then with exactly the footer_size bytes before the tail; "
+    "magic and length are read inside the file; every well-formed envelope reaches the parser; "
+    "build_schema runs only after the parse status was tested; (3) carquet_writer_abort closes the stream "
+    "and then removes the path for path-based writers, and whether it removes depends only on {owns_file, "
+    "file, path}. Decides these clauses, not that every prefix of every file is rejected (that depends on "
+    "byte values).")
 
 FW = "src/writer/file_writer.c"
 FR = "src/reader/file_reader.c"
